@@ -103,8 +103,8 @@ Definition comment_str (c : comment) : str :=
 Definition comment_rebuild (c : comment) (indent : nat) : str :=
   match ck c with
   | KLine => sp (if cinline c then 0 else indent) ++ comment_str c
-  | KBlock => s "/* " ++ ctxt c ++ s " */"          (* no indent: F-05 *)
-  | KDoc => s "/** " ++ ctxt c ++ s " */"
+  | KBlock => sp (if cinline c then 0 else indent) ++ s "/* " ++ ctxt c ++ s " */"
+  | KDoc => sp (if cinline c then 0 else indent) ++ s "/** " ++ ctxt c ++ s " */"
   end.
 Definition mk_inline (c : comment) : comment :=
   {| ck := ck c; ctxt := ctxt c; cspace := cspace c; cshebang := cshebang c; cinline := true |}.
